@@ -80,7 +80,8 @@ def jobs(tier):
 
 
 def requirements(tier):
-    return dict(_requirements(tier), **{"history:same-reading-other-scale": 20, "mixed:compared": 150})
+    return dict(_requirements(tier), **{"history:same-reading-other-scale": 20, "mixed:compared": 150, "history:get_orbit-result-reframed-in-place-then-propagated": 20,
+                                           "tabulation:route:iter-backward": 3})
 
 
 def _requirements(tier):
@@ -416,6 +417,16 @@ def run_pairs(ctx, job, idx, rng, st, twin=None):
                 if how == "frame":
                     o.frame = names[Q]
                     compare("get_orbit, then .frame = other body (in place)", A, Q, probe.arr(o), via=(P, A))
+                    if rng.random() < 0.6:
+                        # ... and the re-framed orbit is then used: propagated (or tabulated) to another date
+                        from beyond.dates import timedelta as _td
+
+                        d_other = date + _td(days=rng.uniform(-3, 3)) if lo + 4 < date.mjd < hi - 4 else date
+                        if rng.random() < 0.5:
+                            o.propagate(d_other)
+                        else:
+                            list(o.iter(dates=[d_other, date]))
+                        ctx.count("history:get_orbit-result-reframed-in-place-then-propagated")
                 elif how == "form":
                     o.form = "spherical"
                 else:
@@ -501,8 +512,8 @@ def run_pairs(ctx, job, idx, rng, st, twin=None):
             ctx.count("tabulation:across-a-leap-second")
         else:
             first_tab = date
-        if lo + 1 < first_tab.mjd < hi - 4:
-            tabulation_checks(ctx, rng, descr, f"{names[A]} (kernel)", lambda dd, A=A: jpl.get_orbit(names[A], dd), first_tab, 6 * 3600.0 * rng.choice([1, 2]),
+        if lo + 1 < first_tab.mjd < hi - 45:
+            tabulation_checks(ctx, rng, descr, f"{names[A]} (kernel)", lambda dd, A=A: jpl.get_orbit(names[A], dd), first_tab, 6 * 3600.0 * rng.choice([1, 2, 8, 20]),
                               rng.randint(5, 8), "C18/jpl-tabulated-state-differs-from-direct-request")
 
     # ---- the propagator used "the other way round" (kernel centre seen from its target: the library then
@@ -615,10 +626,15 @@ def tabulation_checks(ctx, rng, descr, what, get_state, first, step_s, npts, key
     try:
         direct = [get_state(d) for d in dates]
         o0 = direct[0]
+        perm = list(range(npts))
+        rng.shuffle(perm)
         routes = {
             "iter(start, stop, step)": lambda: list(o0.iter(start=dates[0], stop=dates[-1], step=timedelta(seconds=step_s))),
             "iter(dates=)": lambda: list(o0.iter(dates=list(dates))),
             "ephem": lambda: list(o0.ephem(start=dates[0], stop=dates[-1], step=timedelta(seconds=step_s))),
+            # time running backwards, or in no order at all: every date is still its own request
+            "iter-backward(start, stop, step<0)": lambda: list(direct[-1].iter(start=dates[-1], stop=dates[0], step=timedelta(seconds=-step_s)))[::-1],
+            "iter(dates=unsorted)": lambda: [x for _, x in sorted(zip(perm, direct[perm[0]].iter(dates=[dates[k_] for k_ in perm])), key=lambda t_: t_[0])],
         }
         name = rng.choice(sorted(routes))
         pts = routes[name]()
